@@ -42,7 +42,7 @@ CAT = ['point', 'circle', 'ellipse', 'circleannulus', 'ellipseannulus', 'rotbox'
        'poly_origin', 'circle_origin']
 NONREP = ['sky_circle', 'line', 'text', 'rectangleannulus', 'compound']
 INC_PATTERNS = ['absent', 'all_false', 'alt_False_True', 'alt_0_1', 'first_false']
-COMP_PATTERNS = ['absent', 'all', 'partial', 'partial_first', 'partial_desc', 'partial_mixed', 'all_desc']
+COMP_PATTERNS = ['absent', 'all', 'partial', 'partial_first', 'partial_desc', 'partial_mixed', 'all_desc', 'from_zero', 'zero_then_absent']
 
 
 def make(name, include='absent', component=None):
@@ -127,6 +127,10 @@ def _comp_for(pattern, k):
         return {0: 6, 2: 4}.get(k)
     if pattern == 'all_desc':
         return 40 - 3 * k
+    if pattern == 'from_zero':          # 0 is a component number like any other
+        return k
+    if pattern == 'zero_then_absent':
+        return 0 if k == 0 else None
     raise ValueError(pattern)
 
 
@@ -506,7 +510,7 @@ def read_lattice_cases(tier):
 def list_cases(tier):
     out = []
     incs = ['absent', 'all_false', 'alt_0_1'] if tier == 'quick' else INC_PATTERNS
-    comps = ['absent', 'all', 'partial', 'partial_desc', 'partial_mixed'] if tier == 'quick' else COMP_PATTERNS
+    comps = ['absent', 'from_zero', 'partial', 'partial_desc', 'partial_mixed', 'zero_then_absent'] if tier == 'quick' else COMP_PATTERNS
     media = ['memory', 'file', 'file_multi'] if tier == 'quick' else ['memory', 'file', 'file_region', 'file_multi']
     maxlen = 2 if tier == 'quick' else 3
     lists = []
